@@ -62,7 +62,7 @@ for _R, _h, _t in MOTIONS + MOTIONS2:
 for _R, _h, _t in MOTIONS2:
     assert _R[2] == [0, 0, _h] and _t[2] == 0
 
-SCALES = (-10, -3, 0, 4)
+SCALES = (-10, -3, 0, 4, -20, 12)
 
 
 def _aff_rank(pts):
